@@ -32,7 +32,7 @@ EXTRA_TARGETS = ("Gen/SchedSasa.vo", "Gen/SchedKernels.vo")
 EXTS = ["_geometry", "_rmsd", "drid", "neighbors", "neighborlist"]
 RULE = ("(environment, trajectory, analysis) triples: environment = OMP_NUM_THREADS in {1,2,3,5,8,16,frames+3} x OMP_SCHEDULE in "
         "{static,dynamic,guided} x OMP_DYNAMIC in {unset,true}, one process each; trajectory = frames of tests/data/2EQQ.pdb or "
-        "seeded random coordinates (no cell, constant rectangular cell, a cell whose kind O/T and size change per frame, a sheared cell with one component changing per frame, a 1500+ atom system for the numpy/BLAS analyses); analysis = one of the per-frame functions; for each triple the whole "
+        "seeded random coordinates (no cell, constant rectangular cell, a cell whose kind O/T and size change per frame, a sheared cell with one component changing per frame, a 1500+ atom system for the numpy/BLAS analyses, 24+ near-copies of a protein frame with hydrogen bonds present in 1-2 frames); in a few environments each analysis is recomputed after the process served other calls of the same functions (call history); analysis = one of the per-frame functions; for each triple the whole "
         "trajectory, every frame alone, a permuted trajectory and a repeated call are hashed per frame and compared for "
         "equality; non-trivial = trajectory has >= 2 frames and more frames than one thread's share for some thread "
         "(threads < frames) or a permutation that moves the frame; distinct by hash of the triple")
@@ -395,6 +395,11 @@ def trajs_for(ctx):
     out.append({"id": "cellseries", "kind": "random", "n_atoms": rng.choice([30, 42]), "n_frames": 8 if quick else 14,
                 "seed": rng.randrange(10 ** 6), "cell_series": "one-component", "cell_seed": rng.randrange(10 ** 6),
                 "only": PERIODIC, "env_every": 3 if quick else 1})
+    # the same sheared cell in every frame (what "has the box changed since the last call?" caches are written for):
+    # only useful together with the call-history pass, so it goes through the history environments only
+    out.append({"id": "cellconst", "kind": "random", "n_atoms": rng.choice([26, 38]), "n_frames": 4, "seed": rng.randrange(10 ** 6),
+                "cell_series": "one-component", "cell_constant": True, "cell_seed": rng.randrange(10 ** 6), "only": PERIODIC,
+                "env_every": 4 if quick else 5})
     # a large system for the numpy / BLAS based analyses (blocking and BLAS threading depend on the batch size)
     out.append({"id": "large", "kind": "random", "n_atoms": 1500 if quick else 3200, "n_frames": 9 if quick else 220,
                 "seed": rng.randrange(10 ** 6), "box": True, "only": NUMERIC, "env_every": 3 if quick else 4})
